@@ -249,6 +249,50 @@ def default_node(schema, t, declared=None):
     raise ValueError(f"no default for {k}")
 
 
+def node_leaves(schema, t, node, seen=None):
+    """Number of leaves below a model node (reference targets counted once)."""
+    if seen is None:
+        seen = set()
+    ty = schema[t]
+    k = ty["k"]
+    if k in ("sc", "str"):
+        return 1
+    if k == "struct":
+        return sum(node_leaves(schema, f[1], node.f[f[0]], seen) for f in ty["fields"]) or 1
+    if k == "array":
+        if schema[ty["item"]]["k"] == "sc":
+            return len(node.items) or 1
+        return sum(node_leaves(schema, ty["item"], x, seen) for x in node.items) or 1
+    if node.to is None or id(node.to) in seen:
+        return 1
+    seen.add(id(node.to))
+    tt = ty["to"] if k == "ref" else ty["members"][node.m]
+    return 1 + node_leaves(schema, tt, node.to, seen)
+
+
+def spec_leaves(spec):
+    """Rough number of leaves a value specification will create."""
+    if not isinstance(spec, dict):
+        return 1
+    if "nd" in spec:
+        n = 1
+        for d in spec["nd"]["shape"]:
+            n *= d
+        return max(1, n)
+    if "l" in spec:
+        return sum(spec_leaves(x) for x in spec["l"]) or 1
+    if "d" in spec:
+        return sum(spec_leaves(x) for x in spec["d"].values()) or 1
+    if "v" in spec:
+        return spec_leaves(spec["v"])
+    if "dims" in spec:
+        n = 1
+        for d in spec["shape"]:
+            n *= d
+        return max(1, n)
+    return 1
+
+
 def node_at(schema, t, node, path):
     """Follow a path ([fname | [i..] | '*']...) -> (type idx, node, parent, key)."""
     parent, key = None, None
